@@ -684,3 +684,109 @@ func ruleCCITTEncoderTerminating(c *core.Ctx, rule string) {
 		}
 	})
 }
+
+// ruleCCITTColourTables (C07-R13 / C06-R24): a run is coded with the make-up
+// and the terminating code of its own colour (T.4 has separate tables for
+// white and black).  The tables themselves are compared with the standard by
+// the table rule, which also ties their names to their contents; this rule is
+// about their use: tables that are selected together (fields of one literal
+// of a table-of-tables, or assignments under the same condition in the run
+// encoder) are of one colour.
+func ruleCCITTColourTables(c *core.Ctx, rule string) {
+	c.Check(rule, ccittPk+"/colour-tables", "the make-up and terminating tables selected together in the run encoder belong to the same colour", func(o *core.Ob) {
+		pkg := c.Prog.Pkg(ccittPk)
+		colourOf := func(name string) string {
+			if !strings.HasSuffix(name, "EncodeTable") {
+				return ""
+			}
+			switch {
+			case strings.HasPrefix(name, "white"):
+				return "white"
+			case strings.HasPrefix(name, "black"):
+				return "black"
+			}
+			return ""
+		}
+		n := 0
+		// (a) literals that group tables
+		for _, f := range pkg.Syntax {
+			if c.Prog.IsTestFile(f.Pos()) {
+				continue
+			}
+			ast.Inspect(f, func(m ast.Node) bool {
+				cl, ok := m.(*ast.CompositeLit)
+				if !ok {
+					return true
+				}
+				if _, isStruct := pkg.TypesInfo.TypeOf(cl).Underlying().(*types.Struct); !isStruct {
+					return true
+				}
+				colours := map[string][]string{}
+				for _, el := range cl.Elts {
+					val := el
+					if kv, isKV := el.(*ast.KeyValueExpr); isKV {
+						val = kv.Value
+					}
+					if id, isID := ast.Unparen(val).(*ast.Ident); isID {
+						if col := colourOf(id.Name); col != "" {
+							colours[col] = append(colours[col], id.Name)
+						}
+					}
+				}
+				if len(colours["white"])+len(colours["black"]) >= 2 {
+					n++
+					if len(colours["white"]) > 0 && len(colours["black"]) > 0 {
+						o.Fail("%s: one entry of the table of code tables mixes colours: %v with %v", c.Prog.Pos(cl.Pos()), colours["white"], colours["black"])
+					}
+				}
+				return true
+			})
+		}
+		// (b) tables chosen under the same condition in the run encoder
+		fn := c.Prog.FuncOpt(ccittPk, "(*Writer).encode1DRun")
+		if fn != nil {
+			g := fn.Graph()
+			info := fn.Info()
+			byCond := map[string]map[string][]string{}
+			for _, v := range g.Vs {
+				if v.AST == nil {
+					continue
+				}
+				if _, isLoop := v.AST.(*ast.ForStmt); isLoop {
+					continue
+				}
+				var used []string
+				ast.Inspect(v.AST, func(m ast.Node) bool {
+					if id, ok := m.(*ast.Ident); ok {
+						if tv, ok := info.Uses[id].(*types.Var); ok && tv.Pkg() != nil && tv.Parent() == tv.Pkg().Scope() && colourOf(tv.Name()) != "" {
+							used = append(used, tv.Name())
+						}
+					}
+					return true
+				})
+				if len(used) == 0 {
+					continue
+				}
+				for _, cnd := range dominatingConds(g, v) {
+					if !strings.Contains(cnd, "whiteBit") && !strings.Contains(strings.ToLower(cnd), "white") && !strings.Contains(strings.ToLower(cnd), "black") {
+						continue
+					}
+					if byCond[cnd] == nil {
+						byCond[cnd] = map[string][]string{}
+					}
+					for _, u := range used {
+						byCond[cnd][colourOf(u)] = append(byCond[cnd][colourOf(u)], u)
+					}
+				}
+			}
+			for cnd, cols := range byCond {
+				n++
+				if len(cols["white"]) > 0 && len(cols["black"]) > 0 {
+					o.Fail("%s: under the condition %s the run encoder uses %v together with %v", fn.Key, cnd, cols["white"], cols["black"])
+				}
+			}
+		}
+		o.Count(n)
+		o.Shape(n > 0, "no place where colour-specific code tables are selected together was found")
+	})
+}
